@@ -16,7 +16,7 @@ PROP = Property(
                     wraps=["ares_rand_bytes"],
                     ml_srcs=["ocaml/gen/%s.ml" % m for (_, _, m) in KINDS] + ["ocaml/dsa_reg.ml"]
                             + ["ocaml/dsa_%s.ml" % k for (k, _, _) in KINDS] + ["ocaml/dsa_drv.ml"],
-                    gen=opsgen.gen, n_quick=2500, n_thorough=30000)],
+                    gen=opsgen.gen, n_quick=1500, n_thorough=10000)],
     trusted_base=["Coq 8.16.1 kernel + coqc (vm_compute; no native_compute)",
                   "extraction (ExtrOcamlBasic only, no Extract Constant) + OCaml 4.13.1",
                   "gen/regen.py constants (ARES__ARRAY_MIN, ARES__HTABLE_*, status codes) compiled against the working tree",
@@ -29,11 +29,18 @@ PROP = Property(
                  "byte buffer: cursor functions (len, consume, tag, tag_rollback, tag_clear, tag_length, set_length, "
                  "set_position, get_position, is_const, append_finish) are generated from the C source and used inside "
                  "the model; sizes below 2^62, byte arguments are bytes (buf_op_ok)",
+                 "byte buffer: which allocation request of ares_buf_split belongs to which piece (buf_split_piece_reqs: "
+                 "1 per kept piece + array growth at pieces 0, 4, 8, 16 ...) is read off ares_buf_create / "
+                 "ares_array_set_size and checked by the '!<n>sx' cases; ares_buf_parse_dns_binstr_int reads ONE "
+                 "character-string in this tree",
                  "hash table: the hash function is any function compatible with the key equality (theorems quantify over it)"],
     generated_fns=["ares_buf_len", "ares_buf_consume", "ares_buf_tag", "ares_buf_tag_rollback", "ares_buf_tag_clear",
                    "ares_buf_tag_length", "ares_buf_set_length", "ares_buf_set_position", "ares_buf_get_position",
                    "ares_buf_is_const", "ares_buf_append_finish",
                    # read side: the hand model is proved equal to these (Dsa/Buf_gen_agree.v)
-                   "ares_buf_fetch_be16", "ares_buf_peek_byte", "ares_buf_fetch_bytes"],
+                   "ares_buf_fetch_be16", "ares_buf_peek_byte", "ares_buf_fetch_bytes",
+                   # containers (Dsa/Dsa_gen_agree.v)
+                   "ares_array_set_size", "ares_array_remove_last", "ares_array_len", "ares_slist_max_level",
+                   "ares_slist_len", "ares_llist_len", "ares_htable_num_keys"],
     rule="random/boundary-directed operation sequences per container; non-trivial = at least two state-changing operations succeeded in the model; distinct by case text",
 )
